@@ -9,23 +9,24 @@ Open Scope C_scope.
 Ltac mat_unfold := cbv [Cm_mul Cm_dag Cm_kron Cm_scale Cm_add lm_mul lm_dag lm_kron lm_scale lm_add lm_col lm_dot lm_ncols
                         map seq hd nth length combine fold_right fst snd flat_map app].
 Ltac conj_push := repeat first [ rewrite Cconj_plus | rewrite Cconj_mult | rewrite Cconj_R | rewrite Cconj_invol ].
-Ltac mat_eq := mat_unfold; repeat f_equal; conj_push; ring.
+Ltac list_split := repeat match goal with |- cons _ _ = cons _ _ => f_equal end.
+Ltac mat_eq := mat_unfold; list_split; conj_push; ring.
 
-Definition I2 : Cmat := [[1; 0]; [0; 1]].
-Definition I4 : Cmat := [[1; 0; 0; 0]; [0; 1; 0; 0]; [0; 0; 1; 0]; [0; 0; 0; 1]].
-Definition Z2 : Cmat := [[0; 0]; [0; 0]].
-Definition Z4 : Cmat := [[0; 0; 0; 0]; [0; 0; 0; 0]; [0; 0; 0; 0]; [0; 0; 0; 0]].
+Definition I2 : Cmat := [[(RtoC 1); (RtoC 0)]; [(RtoC 0); (RtoC 1)]].
+Definition I4 : Cmat := [[(RtoC 1); (RtoC 0); (RtoC 0); (RtoC 0)]; [(RtoC 0); (RtoC 1); (RtoC 0); (RtoC 0)]; [(RtoC 0); (RtoC 0); (RtoC 1); (RtoC 0)]; [(RtoC 0); (RtoC 0); (RtoC 0); (RtoC 1)]].
+Definition Z2 : Cmat := [[(RtoC 0); (RtoC 0)]; [(RtoC 0); (RtoC 0)]].
+Definition Z4 : Cmat := [[(RtoC 0); (RtoC 0); (RtoC 0); (RtoC 0)]; [(RtoC 0); (RtoC 0); (RtoC 0); (RtoC 0)]; [(RtoC 0); (RtoC 0); (RtoC 0); (RtoC 0)]; [(RtoC 0); (RtoC 0); (RtoC 0); (RtoC 0)]].
 
 Definition sq2 (m : Cmat) : Prop := exists x00 x01 x10 x11 : C, m = [[x00; x01]; [x10; x11]].
 Definition det2 (m : Cmat) : C :=
   match m with
   | [[x00; x01]; [x10; x11]] => x00 * x11 - x01 * x10
-  | _ => 0
+  | _ => RtoC 0
   end.
 Definition tr2 (m : Cmat) : C :=
   match m with
   | [[x00; x01]; [x10; x11]] => x00 + x11
-  | _ => 0
+  | _ => RtoC 0
   end.
 Lemma sq2_mul A B : sq2 A -> sq2 B -> sq2 (Cm_mul A B).
 Proof. intros HA HB. destruct HA as (a00 & a01 & a10 & a11 & ->). destruct HB as (b00 & b01 & b10 & b11 & ->). mat_unfold. unfold sq2. do 4 eexists. reflexivity. Qed.
@@ -41,7 +42,7 @@ Lemma dag_scale2 c A : sq2 A -> Cm_dag (Cm_scale c A) = Cm_scale (Cconj c) (Cm_d
 Proof. intros HA. destruct HA as (a00 & a01 & a10 & a11 & ->). mat_eq. Qed.
 Lemma scale_mul2 c d A B : sq2 A -> sq2 B -> Cm_mul (Cm_scale c A) (Cm_scale d B) = Cm_scale (c * d) (Cm_mul A B).
 Proof. intros HA HB. destruct HA as (a00 & a01 & a10 & a11 & ->). destruct HB as (b00 & b01 & b10 & b11 & ->). mat_eq. Qed.
-Lemma scale_one2 A : sq2 A -> Cm_scale 1 A = A.
+Lemma scale_one2 A : sq2 A -> Cm_scale (RtoC 1) A = A.
 Proof. intros HA. destruct HA as (a00 & a01 & a10 & a11 & ->). mat_eq. Qed.
 Lemma mul_I2_r A : sq2 A -> Cm_mul A I2 = A.
 Proof. intros HA. destruct HA as (a00 & a01 & a10 & a11 & ->). unfold I2. mat_eq. Qed.
@@ -53,9 +54,9 @@ Lemma sq2_I : sq2 I2.
 Proof. unfold sq2, I2. do 4 eexists. reflexivity. Qed.
 Lemma det2_mul A B : sq2 A -> sq2 B -> det2 (Cm_mul A B) = det2 A * det2 B.
 Proof. intros HA HB. destruct HA as (a00 & a01 & a10 & a11 & ->). destruct HB as (b00 & b01 & b10 & b11 & ->). mat_unfold. cbv [det2]. ring. Qed.
-Lemma det2_scale c A : sq2 A -> det2 (Cm_scale c A) = Cpown c 2 * det2 A.
+Lemma det2_scale c A : sq2 A -> det2 (Cm_scale c A) = Cpown c 2%nat * det2 A.
 Proof. intros HA. destruct HA as (a00 & a01 & a10 & a11 & ->). mat_unfold. cbv [det2 Cpown]. ring. Qed.
-Lemma det2_I : det2 I2 = 1.
+Lemma det2_I : det2 I2 = RtoC 1.
 Proof. cbv [det2 I2]. ring. Qed.
 Definition unitary2 (m : Cmat) : Prop := sq2 m /\ Cm_mul (Cm_dag m) m = I2.
 Lemma unitary2_mul A B : unitary2 A -> unitary2 B -> unitary2 (Cm_mul A B).
@@ -66,7 +67,7 @@ Proof.
   rewrite <- (mul_assoc2 (Cm_dag A) A B); try apply sq2_dag; auto.
   rewrite UA, mul_I2_l by assumption. exact UB.
 Qed.
-Lemma unitary2_scale c A : c * Cconj c = 1 -> unitary2 A -> unitary2 (Cm_scale c A).
+Lemma unitary2_scale c A : c * Cconj c = RtoC 1 -> unitary2 A -> unitary2 (Cm_scale c A).
 Proof.
   intros Hc [SA UA]. split. now apply sq2_scale.
   rewrite dag_scale2 by assumption. rewrite scale_mul2; try apply sq2_dag; auto.
@@ -78,12 +79,12 @@ Definition sq4 (m : Cmat) : Prop := exists x00 x01 x02 x03 x10 x11 x12 x13 x20 x
 Definition det4 (m : Cmat) : C :=
   match m with
   | [[x00; x01; x02; x03]; [x10; x11; x12; x13]; [x20; x21; x22; x23]; [x30; x31; x32; x33]] => x00 * x11 * x22 * x33 - x00 * x11 * x23 * x32 - x00 * x12 * x21 * x33 + x00 * x12 * x23 * x31 + x00 * x13 * x21 * x32 - x00 * x13 * x22 * x31 - x01 * x10 * x22 * x33 + x01 * x10 * x23 * x32 + x01 * x12 * x20 * x33 - x01 * x12 * x23 * x30 - x01 * x13 * x20 * x32 + x01 * x13 * x22 * x30 + x02 * x10 * x21 * x33 - x02 * x10 * x23 * x31 - x02 * x11 * x20 * x33 + x02 * x11 * x23 * x30 + x02 * x13 * x20 * x31 - x02 * x13 * x21 * x30 - x03 * x10 * x21 * x32 + x03 * x10 * x22 * x31 + x03 * x11 * x20 * x32 - x03 * x11 * x22 * x30 - x03 * x12 * x20 * x31 + x03 * x12 * x21 * x30
-  | _ => 0
+  | _ => RtoC 0
   end.
 Definition tr4 (m : Cmat) : C :=
   match m with
   | [[x00; x01; x02; x03]; [x10; x11; x12; x13]; [x20; x21; x22; x23]; [x30; x31; x32; x33]] => x00 + x11 + x22 + x33
-  | _ => 0
+  | _ => RtoC 0
   end.
 Lemma sq4_mul A B : sq4 A -> sq4 B -> sq4 (Cm_mul A B).
 Proof. intros HA HB. destruct HA as (a00 & a01 & a02 & a03 & a10 & a11 & a12 & a13 & a20 & a21 & a22 & a23 & a30 & a31 & a32 & a33 & ->). destruct HB as (b00 & b01 & b02 & b03 & b10 & b11 & b12 & b13 & b20 & b21 & b22 & b23 & b30 & b31 & b32 & b33 & ->). mat_unfold. unfold sq4. do 16 eexists. reflexivity. Qed.
@@ -99,7 +100,7 @@ Lemma dag_scale4 c A : sq4 A -> Cm_dag (Cm_scale c A) = Cm_scale (Cconj c) (Cm_d
 Proof. intros HA. destruct HA as (a00 & a01 & a02 & a03 & a10 & a11 & a12 & a13 & a20 & a21 & a22 & a23 & a30 & a31 & a32 & a33 & ->). mat_eq. Qed.
 Lemma scale_mul4 c d A B : sq4 A -> sq4 B -> Cm_mul (Cm_scale c A) (Cm_scale d B) = Cm_scale (c * d) (Cm_mul A B).
 Proof. intros HA HB. destruct HA as (a00 & a01 & a02 & a03 & a10 & a11 & a12 & a13 & a20 & a21 & a22 & a23 & a30 & a31 & a32 & a33 & ->). destruct HB as (b00 & b01 & b02 & b03 & b10 & b11 & b12 & b13 & b20 & b21 & b22 & b23 & b30 & b31 & b32 & b33 & ->). mat_eq. Qed.
-Lemma scale_one4 A : sq4 A -> Cm_scale 1 A = A.
+Lemma scale_one4 A : sq4 A -> Cm_scale (RtoC 1) A = A.
 Proof. intros HA. destruct HA as (a00 & a01 & a02 & a03 & a10 & a11 & a12 & a13 & a20 & a21 & a22 & a23 & a30 & a31 & a32 & a33 & ->). mat_eq. Qed.
 Lemma mul_I4_r A : sq4 A -> Cm_mul A I4 = A.
 Proof. intros HA. destruct HA as (a00 & a01 & a02 & a03 & a10 & a11 & a12 & a13 & a20 & a21 & a22 & a23 & a30 & a31 & a32 & a33 & ->). unfold I4. mat_eq. Qed.
@@ -111,9 +112,9 @@ Lemma sq4_I : sq4 I4.
 Proof. unfold sq4, I4. do 16 eexists. reflexivity. Qed.
 Lemma det4_mul A B : sq4 A -> sq4 B -> det4 (Cm_mul A B) = det4 A * det4 B.
 Proof. intros HA HB. destruct HA as (a00 & a01 & a02 & a03 & a10 & a11 & a12 & a13 & a20 & a21 & a22 & a23 & a30 & a31 & a32 & a33 & ->). destruct HB as (b00 & b01 & b02 & b03 & b10 & b11 & b12 & b13 & b20 & b21 & b22 & b23 & b30 & b31 & b32 & b33 & ->). mat_unfold. cbv [det4]. ring. Qed.
-Lemma det4_scale c A : sq4 A -> det4 (Cm_scale c A) = Cpown c 4 * det4 A.
+Lemma det4_scale c A : sq4 A -> det4 (Cm_scale c A) = Cpown c 4%nat * det4 A.
 Proof. intros HA. destruct HA as (a00 & a01 & a02 & a03 & a10 & a11 & a12 & a13 & a20 & a21 & a22 & a23 & a30 & a31 & a32 & a33 & ->). mat_unfold. cbv [det4 Cpown]. ring. Qed.
-Lemma det4_I : det4 I4 = 1.
+Lemma det4_I : det4 I4 = RtoC 1.
 Proof. cbv [det4 I4]. ring. Qed.
 Definition unitary4 (m : Cmat) : Prop := sq4 m /\ Cm_mul (Cm_dag m) m = I4.
 Lemma unitary4_mul A B : unitary4 A -> unitary4 B -> unitary4 (Cm_mul A B).
@@ -124,7 +125,7 @@ Proof.
   rewrite <- (mul_assoc4 (Cm_dag A) A B); try apply sq4_dag; auto.
   rewrite UA, mul_I4_l by assumption. exact UB.
 Qed.
-Lemma unitary4_scale c A : c * Cconj c = 1 -> unitary4 A -> unitary4 (Cm_scale c A).
+Lemma unitary4_scale c A : c * Cconj c = RtoC 1 -> unitary4 A -> unitary4 (Cm_scale c A).
 Proof.
   intros Hc [SA UA]. split. now apply sq4_scale.
   rewrite dag_scale4 by assumption. rewrite scale_mul4; try apply sq4_dag; auto.
@@ -140,7 +141,7 @@ Lemma dag_kron A B : sq2 A -> sq2 B -> Cm_dag (Cm_kron A B) = Cm_kron (Cm_dag A)
 Proof. intros HA HB. destruct HA as (a00 & a01 & a10 & a11 & ->). destruct HB as (b00 & b01 & b10 & b11 & ->). mat_eq. Qed.
 Lemma kron_I : Cm_kron I2 I2 = I4.
 Proof. unfold I2, I4. mat_eq. Qed.
-Lemma det4_kron A B : sq2 A -> sq2 B -> det4 (Cm_kron A B) = Cpown (det2 A) 2 * Cpown (det2 B) 2.
+Lemma det4_kron A B : sq2 A -> sq2 B -> det4 (Cm_kron A B) = Cpown (det2 A) 2%nat * Cpown (det2 B) 2%nat.
 Proof. intros HA HB. destruct HA as (a00 & a01 & a10 & a11 & ->). destruct HB as (b00 & b01 & b10 & b11 & ->). mat_unfold. cbv [det4 det2 Cpown]. ring. Qed.
 Lemma unitary4_kron A B : unitary2 A -> unitary2 B -> unitary4 (Cm_kron A B).
 Proof.
